@@ -743,12 +743,14 @@ func c04Ownership(c *core.Ctx, rule string) {
 				if mu, ok := in.(*ssa.MapUpdate); ok {
 					if _, f, o := core.LoadedField(mu.Map); o && f == rsess {
 						if b, g, o2 := core.LoadedField(mu.Key); o2 && g.Name() == "LocalID" && b == cl.Value() {
-							recorded = true
+							if all, _ := dominatesReturns(mu); all {
+								recorded = true
+							}
 						}
 					}
 				}
 			})
-			c.Check(rule, "member-added:RemoteNode.NewSess", cl.Pos(), recorded, "the new session's UP SEID is entered in the node's own set")
+			c.Check(rule, "member-added:RemoteNode.NewSess", cl.Pos(), recorded, "the new session's UP SEID is entered in the node's own set on every path")
 		}
 	}
 }
